@@ -316,6 +316,13 @@ class Repo:
             if fn.endswith('.py') and fn not in EXCLUDE_FILES:
                 m = Module(root, f'{PKG}/{fn}')
                 self.modules[m.name] = m
+        # customary private names (canon.py): a no-op unless a private name the rules spell has been renamed
+        from .canon import canonicalise
+        trees = {n: m.tree for n, m in self.modules.items()}
+        self.renamed = canonicalise(trees)
+        if self.renamed:
+            for m in self.modules.values():
+                m.build()
         if expand:
             from .inline import expand as _expand
             trees = {n: m.tree for n, m in self.modules.items()}
